@@ -235,7 +235,6 @@ func H_C18_freshChecks() {
 	reach("compared")
 }
 
-
 var c18FloatBounds = []float64{math.Inf(-1), -math.MaxFloat64, -1, 0, 1, math.MaxFloat64, math.Inf(1)}
 var c18FloatNames = []string{"-inf", "-maxfloat", "-1", "0", "1", "maxfloat", "inf"}
 
